@@ -776,12 +776,12 @@ def shared_component_histories(ctx, types):
         if not pool:
             continue
         pairs = [(a, b) for a in pool for b in pool]
-        if ctx.tier != "thorough" and len(pairs) > 150:
+        if ctx.tier != "thorough" and len(pairs) > 100:
             # keep every pair that shares its first component, sample the rest
             share = [(a, b) for (a, b) in pairs if a != b and (a[:8] == b[:8] or a[-8:] == b[-8:])]
             sset = set(share)
             rest = [p for p in pairs if p not in sset]
-            pairs = share[:220] + ctx.rng.sample(rest, min(len(rest), 60))
+            pairs = share[:120] + ctx.rng.sample(rest, min(len(rest), 30))
         other = "UTCTIMESTAMP" if t != "UTCTIMESTAMP" and t in ("LOCALMKTDATE", "UTCDATEONLY", "UTCTIMEONLY", "MONTHYEAR") else t
         for a, b in pairs:
             sc.append([["new", 0, t, "1", []], ["validate", 0, a], ["validate", 0, b], ["validate", 0, b], ["validate", 0, a]])
@@ -916,11 +916,11 @@ def typed_cases(ctx, types, maxdigits):
         by_fmt[name.split(":")[0]] = by_fmt.get(name.split(":")[0], 0) + 1
         seen_str.setdefault(v, name)
     pf_strings = sorted(seen_str)
-    if ctx.tier != "thorough" and len(pf_strings) > 1600:
+    if ctx.tier != "thorough" and len(pf_strings) > 1100:
         keep = [v for v in pf_strings if seen_str[v].split(":")[1] in ("str", "repr", "isoformat", "%g", "%e")]
         kset = set(keep)
         rest = [v for v in pf_strings if v not in kset]
-        pf_strings = sorted(set(keep[:900] + ctx.rng.sample(rest, max(0, 1600 - min(len(keep), 900)))))
+        pf_strings = sorted(set(keep[:700] + ctx.rng.sample(rest, max(0, 1100 - min(len(keep), 700)))))
     for v in pf_strings:
         for t in sorted(upper_seen):
             cases.append((t, "1", (), v))
@@ -1180,8 +1180,8 @@ def correspondence(ctx):
         if out[len(values) + i] != py_float(v):
             dis.append({"input": {"float()": v}, "model": out[len(values) + i], "impl": py_float(v), "level": "primitive"})
     dvals = sorted({c[3] for c in typed if isinstance(c[3], str) and c[0].upper() in DT_TYPES})
-    if ctx.tier != "thorough" and len(dvals) > 20000:
-        dvals = ctx.rng.sample(dvals, 20000)
+    if ctx.tier != "thorough" and len(dvals) > 12000:
+        dvals = ctx.rng.sample(dvals, 12000)
     lines = [f"lex.strp {f} {enc(v)}" for v in dvals for f in FMT]
     out = drv.batch(lines)
     k = 0
